@@ -197,16 +197,18 @@ Proof.
   rewrite Ecmd, Enode, Eseq, Eflag, Etyp, Eref.
   (* the reference list *)
   assert (Hwire : forall q, p_flag q = fl ->
-    (if 0 <? lenN b then unmarshal_body dec unzip has_c b q else Ok q) =
+    (if (0 <? lenN b) || negb (N.land (p_flag q) fMarshal =? 0)
+     then unmarshal_body dec unzip has_c b q else Ok q) =
     Ok (mkPacket (p_cmd q) (p_seq q) (p_flag p) (p_typ q) (p_node q) (p_refers q)
                  (match body_bytes (p_body p) with [] => p_body q | _ => decoded_body p end))).
-  { intros q Hq. destruct (N.ltb_spec 0 (lenN b)) as [Hb|Hb].
+  { intros q Hq. destruct (N.ltb_spec 0 (lenN b)) as [Hb|Hb]; cbn [orb].
     - destruct (unmarshal_marshal enc dec zip unzip dec_enc enc_len unzip_zip zip_nonempty thr has_c p b fl q) as [U HB];
         try assumption; [apply W|].
       rewrite U. unfold set_body, set_flag. cbn [p_cmd p_seq p_flag p_typ p_node p_refers p_body].
       destruct (body_bytes (p_body p)); [cbn in HB; lia|reflexivity].
     - destruct (marshal_empty enc dec zip unzip dec_enc enc_len unzip_zip zip_nonempty thr has_c p b fl M) as [-> E]; [lia|].
-      rewrite E. destruct q; cbn in Hq; subst; reflexivity. }
+      rewrite Hq. change (N.land (p_flag p) fMarshal) with (N.land (p_flag p) 3). rewrite Hc.
+      cbn [N.eqb negb]. rewrite E. destruct q; cbn in Hq; subst; reflexivity. }
   destruct (N.ltb_spec 0 (lenN refs)) as [Hr|Hr].
   - rewrite lenN_app, be32s_lenN.
     destruct (N.ltb_spec (4 * lenN refs + lenN b) (lenN refs * 4)) as [X|_]; [lia|].
